@@ -481,3 +481,9 @@ class Ctx:
         ev = dict(property_id=self.pid, tier=self.tier, seed=self.seed, level="proof", coverage=cov,
                   assumptions=self.assumptions, wall_s=round(time.time() - self.t0, 2), violations=n_viol)
         (EVIDENCE / f"{self.pid}.json").write_text(json.dumps(ev, indent=1, default=str))
+
+
+def degrees(l):
+    """edge ends per vertex, counted from the edge list (never from the lattice's own coordination_numbers, which is itself under test)"""
+    import numpy as np
+    return np.bincount(np.asarray(l.edges.indices, dtype=np.int64).reshape(-1), minlength=int(l.vertices.positions.shape[0]))
